@@ -300,7 +300,7 @@ Lemma iter_ctl acc s orig :
   | None => Continue (mkst 0 false s [] false [] false None acc) []
   | Some pos =>
     match firstn pos s with
-    | [] => Continue (st_ctl acc) (skipn (pos + 2) s)
+    | [] => Break (mkst 0 false [] [] true [] false (Some EInvalidChunkSize) acc)
     | line =>
       match control_line_verdict line with
       | LVBadExt => Break (mkst 0 false [] [] true [] false (Some EInvalidChunkExt) acc)
@@ -360,10 +360,8 @@ Qed.
 (* ---------------------------------------------------------------- *)
 (* T2 chunked *)
 
-(* the receiver as it is: trailers not validated (F10), empty size lines skipped (F11) *)
-Definition d_recv : devs :=
-  {| dv_trailer := true; dv_empty_chunk_line := true; dv_reqline_lf := false; dv_te_http10 := false;
-     dv_clte_keepalive := false; dv_conn_list := false; dv_te_ws_element := false; dv_target_dslash := false |}.
+(* the receiver as it is: trailers not validated (F10) *)
+Definition d_recv : devs := {| dv_trailer := true |}.
 
 Definition agrees (r : chunked_result) (m : option (chunked_rcv * Z)) (orig : Z) (total : N) : Prop :=
   match r with
@@ -412,9 +410,8 @@ Proof.
   assert (Hok2 : bytes_ok s2) by (apply bytes_ok_skipn; exact Hok).
   assert (Htot2 : lenN s2 <= total) by (pose proof (lenN_skipn (pos + 2) s); fold s2 in H; lia).
   destruct (firstn pos s) as [|c l] eqn:Eline.
-  - (* empty line: skipped *)
-    cbn [d_recv dv_empty_chunk_line].
-    apply IH; auto; try lia.
+  - (* empty line: refused *)
+    t_bad. lia.
   - assert (Hokl : bytes_ok (c :: l)) by (rewrite <- Eline; apply bytes_ok_firstn; exact Hok).
     rewrite (verdict_ref _ Hokl).
     destruct (control_line_verdict (c :: l)) as [sz| |].
@@ -524,7 +521,7 @@ Proof.
   destruct (find s CRLF) as [pos|] eqn:F; [|discriminate].
   assert (Hs2 : length (skipn (pos + 2) s) = (length s - (pos + 2))%nat) by apply skipn_length.
   destruct (firstn pos s) as [|c l'].
-  - destruct (dv_empty_chunk_line d); [|discriminate]. intro H. apply IH in H. lia.
+  - discriminate.
   - destruct (parse_chunk_line (c :: l')) as [[|p]|]; [| |discriminate].
     + destruct (read_trailer (S (length (skipn (pos + 2) s))) d (skipn (pos + 2) s)) as [[r|]|] eqn:Et;
         try discriminate.
@@ -554,7 +551,7 @@ Theorem chunked_equiv_partial : forall s, bytes_ok s ->
   agrees (ref_chunked no_devs s) (chunked_received chunked_init s) (Z.of_nat (length s)) (lenN s).
 Proof. intros s Hok E. rewrite E. apply chunked_equiv_dev. exact Hok. Qed.
 
-(* F10: "0\r\nfoo\r\n\r\n" ; F11: "\r\n0\r\n\r\n" *)
+(* F10: "0\r\nfoo\r\n\r\n" ; the former F11: "\r\n0\r\n\r\n" *)
 Definition f10_body : bytes := [48;13;10; 102;111;111;13;10; 13;10].
 Definition f11_body : bytes := [13;10; 48;13;10; 13;10].
 
@@ -563,10 +560,11 @@ Lemma chunked_refuted_trailer :
   exists st, chunked_received chunked_init f10_body = Some (st, 10%Z) /\ c_completed st = true /\ c_error st = None.
 Proof. split; [vm_compute; reflexivity|]. eexists. vm_compute. repeat split. Qed.
 
-Lemma chunked_refuted_empty_line :
+(* F11 is repaired (272e5a4): an empty line where a chunk-size is expected is refused by both *)
+Example chunked_empty_line_refused :
   ref_chunked no_devs f11_body = ChBad (lenN f11_body) /\
-  exists st, chunked_received chunked_init f11_body = Some (st, 7%Z) /\ c_completed st = true /\ c_error st = None.
-Proof. split; [vm_compute; reflexivity|]. eexists. vm_compute. repeat split. Qed.
+  exists st, chunked_received chunked_init f11_body = Some (st, 7%Z) /\ c_error st = Some EInvalidChunkSize.
+Proof. split; [vm_compute; reflexivity|]. eexists. vm_compute. split; reflexivity. Qed.
 
 (* "5;a=b\r\nhello\r\n0\r\nX: y\r\n\r\nNEXT" *)
 Example chunked_equiv_example :
